@@ -108,6 +108,8 @@ type TermStore struct {
 	vars   map[string]*Term
 	varSeq []*Term
 	nextID int32
+	supp    map[int32][]int32
+	varByID map[int32]*Term
 }
 
 func NewTermStore() *TermStore {
@@ -896,6 +898,17 @@ func (c *evalCtx) eval1(t *Term) uint64 {
 	if t.b != nil && t.op != OpIte {
 		y = c.eval(t.b)
 	}
+	if t.op == OpIte {
+		if x != 0 {
+			return c.eval(t.b)
+		}
+		return c.eval(t.c)
+	}
+	return evalOp(t, x, y)
+}
+
+// evalOp applies a (non-ite) operator to evaluated operands.
+func evalOp(t *Term, x, y uint64) uint64 {
 	switch t.op {
 	case OpAdd, OpSub, OpMul, OpUDiv, OpURem, OpSDiv, OpSRem, OpAnd, OpOr, OpXor, OpShl, OpLShr, OpAShr:
 		v, _ := foldBin(t.op, t.w, x, y)
@@ -913,11 +926,6 @@ func (c *evalCtx) eval1(t *Term) uint64 {
 		return x
 	case OpSExt:
 		return uint64(sext(x, t.a.w)) & mask(t.w)
-	case OpIte:
-		if x != 0 {
-			return c.eval(t.b)
-		}
-		return c.eval(t.c)
 	case OpEq:
 		return b2u(x == y)
 	case OpUlt:
